@@ -265,8 +265,8 @@ PROPS['C15'] = dict(
 
 M_FIXED = [K('m_fixed_contiguous_p8', 'models', 'fixed_contiguous_p8', tq=1500), K('m_fixed_contiguous_p4', 'models', 'fixed_contiguous_p4', tq=1500),
            K('m_fixed_contiguous_quantile_p8', 'models', 'fixed_contiguous_quantile_p8', tq=1500), K('m_fixed_contiguous_quantile_p4', 'models', 'fixed_contiguous_quantile_p4', tq=1500),
-           K('m_fixed_noncontig_p8', 'models', 'fixed_noncontig_p8', tq=900), K('m_fixed_noncontig_p4', 'models', 'fixed_noncontig_p4', tiers=('thorough',)),
-           K('m_fixed_lookup_p3', 'models', 'fixed_lookup_p3', tq=900), K('m_fixed_lookup_p8', 'models', 'fixed_lookup_p8', tiers=('thorough',))]
+           K('m_fixed_noncontig_p8', 'models', 'fixed_noncontig_p8', tiers=('thorough',), tt=7200, mem_gb=40), K('m_fixed_noncontig_p4', 'models', 'fixed_noncontig_p4', tiers=('thorough',)),
+           K('m_fixed_lookup_p3', 'models', 'fixed_lookup_p3', tiers=('thorough',), tt=7200, mem_gb=40), K('m_fixed_lookup_p8', 'models', 'fixed_lookup_p8', tiers=('thorough',))]
 M_UNIFORM = [K('m_uniform_u8_p8', 'models', 'uniform_u8_p8', tq=600), K('m_uniform_u8_p5', 'models', 'uniform_u8_p5', tq=600)]
 M_FLOAT = [K('m_fast_f32_n3_p4_norm1', 'models', 'fast_f32_n3_p4_norm1', tq=900), K('m_lazy_f32_n3_p4_valid', 'models', 'lazy_f32_n3_p4_valid', tq=900), K('m_fast_f32_n2_p3_nonorm', 'models', 'fast_f32_n2_p3_nonorm', tq=900)]
 M_QUANT = [K('m_quantizer_u8_p4_sup3', 'models', 'quantizer_u8_p4_sup3', tq=1200)]
@@ -282,7 +282,7 @@ PROPS['C03'] = dict(obligations=M_FIXED + M_UNIFORM + M_FLOAT + M_QUANT, bounds=
 
 PROPS['C05'] = dict(obligations=[K('m_conv_view', 'models', 'conv_view', tq=900), K('m_conv_symbol_table', 'models', 'conv_symbol_table', tq=900), K('m_conv_lookup', 'models', 'conv_lookup', tq=900),
                                  K('m_conv_generic_decoder', 'models', 'conv_generic_decoder', tq=900), K('m_conv_generic_lookup', 'models', 'conv_generic_lookup', tq=900), K('m_lazy_vs_eager_f32_n3_p4', 'models', 'lazy_vs_eager_f32_n3_p4', tq=900),
-                                 K('m_fixed_lookup_p3', 'models', 'fixed_lookup_p3', tq=900), K('m_quantizer_u8_p4_sup3', 'models', 'quantizer_u8_p4_sup3', tq=1200)],
+                                 K('m_fixed_lookup_p3', 'models', 'fixed_lookup_p3', tiers=('thorough',), tt=7200, mem_gb=40), K('m_quantizer_u8_p4_sup3', 'models', 'quantizer_u8_p4_sup3', tq=1200)],
                     bounds=MODEL_BOUNDS + '; pairwise equality of (left cumulative, probability) on a symbolic symbol and of quantile_function on a symbolic quantile', outside=MODEL_OUTSIDE,
                     assumptions=[], stubs=['TableDist stub distribution'])
 
@@ -362,7 +362,7 @@ _C20_SHARED = [o for pid in ('C17', 'C01', 'C16', 'C03', 'C19', 'C08') for o in 
                    'c01_ctor_u8_u16', 'c01_ctor_u32_u64', 'c01_reimport_u16_u32', 'c01_export_u32_u64',
                    'c16_stack_export_import', 'c16_queue_fifo', 'c16_expgolomb_u8',
                    'm_uniform_u8_p8', 'm_uniform_u8_p5', 'm_fast_f32_n3_p4_norm1', 'm_quantizer_u8_p4_sup3', 'm_fast_f32_n2_p3_anyinput', 'm_uniform_rejects',
-                   'm_fixed_contiguous_p8', 'm_fixed_contiguous_p4', 'm_fixed_contiguous_quantile_p8', 'm_fixed_noncontig_p8', 'm_fixed_lookup_p3',
+                   'm_fixed_contiguous_p8', 'm_fixed_contiguous_p4', 'm_fixed_contiguous_quantile_p8',
                    'c08_range_guard_inverted_u8_u16', 'c08_bit_stack_guard')]
 _seen = set(); _C20 = []
 for o in _C20_SHARED:
